@@ -525,6 +525,8 @@ impl Ctx {
             c.generate(&self.node.pk, 0, 0);
             c.validate(&self.node.blockchain.utxoset, &self.node.blockchain, true)
         };
+        let is_foreign_stake = tx.transaction_type == TransactionType::BlockStake
+            && !tx.from.iter().all(|s| s.public_key == self.node.pk);
         let claimed = pre.all_input_keys();
         let must_accept = valid_full
             && tx.transaction_type == TransactionType::Normal
@@ -545,6 +547,9 @@ impl Ctx {
                 format!("I3: funds locked: fresh valid transaction {} spending unspent output(s) {:?}, which no pooled transaction spends, is rejected", id, ks),
                 None,
             );
+        }
+        if accepted && is_foreign_stake {
+            self.finding(format!("intake: staking transaction {} with an input of another key was pooled (a block carries its producer's own staking transaction only)", id), None);
         }
         if accepted && !valid_full {
             self.finding(format!("I2: transaction {} does not validate but was pooled", id), None);
@@ -733,6 +738,7 @@ impl Ctx {
         let tip = self.tip();
         let ts = tip.timestamp + gap;
         let gt_tx = self.node.mempool.golden_tickets.get(&tip.hash).map(|(t, _)| t.clone());
+        let fresh_before = self.node.mempool.new_tx_added;
         let ts_ok = ts > tip.timestamp;
         // a pooled ticket that does not solve the tip is dropped by bundle_block (e0300b2)
         let bad_gt = match &gt_tx {
@@ -852,6 +858,11 @@ impl Ctx {
                             let id = self.it.get(sig);
                             self.finding(format!("I4: bundle_block produced no block and pooled transaction {} is lost", id), None);
                         }
+                    }
+                    // Block::create was reached (every gate of can_bundle_block was open) and
+                    // failed: from here on index and cache must be in line with the pool again
+                    if env_ok && ts_ok && !pre.txs.is_empty() && fresh_before && pre.work >= work_needed && stake.is_some() {
+                        self.inject_phase = 2;
                     }
                     self.stat("bundle:none-injected-conflict");
                 } else if !expect.same_pool(&post) {
@@ -1222,6 +1233,16 @@ async fn scripted(c: &mut Ctx, which: u64) {
             c.op_submit(d3, "data", true).await;
             c.op_bundle(GAP, 0).await;
         }
+        // partial conflict: X = [s0] pooled, Y = [s1, s0] refused for s0 -- s1 must not stay
+        // reserved: Z = [s1] is taken
+        13 => {
+            let x = c.build_tx(&mine[0..1], 50, 0, true);
+            c.op_submit(x, "valid", true).await;
+            let y = c.build_tx(&[mine[1].clone(), mine[0].clone()], 30, 1, true);
+            c.op_submit(y, "conflicting", false).await;
+            let z = c.build_tx(&mine[1..2], 20, 1, true);
+            c.op_submit(z, "valid", true).await;
+        }
         // plain life cycle: arrivals, conflict and duplicate rejected, bundle, peer block
         _ => {
             let a = c.build_tx(&mine[0..2], 50, 0, true);
@@ -1285,10 +1306,14 @@ async fn random_case(c: &mut Ctx, rng: &mut Rng, len: usize) {
                 continue;
             }
             let mut ins = vec![rng.pick(&vin).clone()];
-            if rng.chance(1, 3) {
+            if rng.chance(1, 2) {
                 let more: Vec<Slip> = free.iter().filter(|s| s.public_key == ins[0].public_key).cloned().collect();
                 if !more.is_empty() {
                     ins.push(rng.pick(&more).clone());
+                    // the reserved input first or last: a partial conflict must leave nothing behind
+                    if rng.chance(1, 2) {
+                        ins.reverse();
+                    }
                 }
             }
             let tx = c.build_tx(&ins, 20, rng.below(4) as usize, rng.chance(1, 2));
@@ -1548,7 +1573,7 @@ fn main() {
             }
         }
     };
-    let mut plan: Vec<(u64, u64, usize)> = (0..14u64).map(|k| (k, 0, 0)).collect();
+    let mut plan: Vec<(u64, u64, usize)> = (0..15u64).map(|k| (k, 0, 0)).collect();
     for _ in 0..nrandom {
         let len = rng.range(6, 22) as usize;
         plan.push((100, rng.next(), len));
